@@ -91,6 +91,9 @@ PROFILES = {
     "faultyctx": dict(BASE, ctx_types=("async",), p_ctx=0.6, faulty=("-", "pause", "resume"), p_share=0.1, p_catch=0.3),
     "faultyalways": dict(BASE, ctx_types=("async",), p_ctx=0.6, faulty=("-", "pause_always", "resume_always", "pause"), p_share=0.1,
                          p_catch=0.4, ncalls=2, p_sync=0.1),
+    "faultyexit": dict(BASE, ctx_types=("async",), p_ctx=0.7, faulty=("-", "pause_exit", "pause_exit"), p_share=0.1, p_catch=0.3, nseg=(2, 5)),
+    "overridefaulty": dict(BASE, ctx_types=("override", "attr", "async"), p_ctx=0.7, nvars=2, p_read=0.3, faulty=("-", "resume", "resume_always", "pause"),
+                           p_catch=0.3, p_share=0.1, nseg=(2, 4)),
     "faultysync": dict(BASE, ctx_types=("async",), p_ctx=0.6, faulty=("-", "pause", "resume"), p_sync=0.25, p_catch=0.3),
     "overflow": dict(BASE, ntasks=(3, 8), nleaf=(1, 3), p_task=0.6, p_item=0.25, p_sync=0.15, maxstack=(2, 5), ncalls=2,
                      p_catch=0.3),
@@ -255,6 +258,8 @@ class Gen(object):
                             ops.append(op("exit", open_ctx.pop(r.randrange(len(open_ctx) - 1))))     # not the innermost one
                         else:
                             ops.append(op("exit", open_ctx.pop()))
+                            if self.ctxs[ops[-1]["a"] - 1]["faulty"] == "pause_exit" and r.random() < 0.75:
+                                ops[-1]["c"] = 1            # the error of leaving the block is caught by the task
                     elif len(open_ctx) < 3:
                         ty = r.choice(p["ctx_types"])
                         var = r.randint(1, p["nvars"]) if ty in ("override", "attr", "oapi") else 0
